@@ -35,7 +35,23 @@ SCENARIOS = {
     "S-BL-cross": [[("c0", "CON", "B"), ("c1", "CON", "A"), ("c2", "CON", "A")]],
     # server role: the node's own separate CON response to A competes with its client requests to A
     "S-BL-server": [[("c0", "CON", "A")], "A-requests-slow", [("c1", "CON", "A")]],
+    # ... and with that separate response on the wire already when the client request is submitted (which then waits behind it,
+    # also when nobody ever acknowledges the response)
+    "S-BL-server-open": ["A-requests-slow", "wait", [("c1", "CON", "A"), ("c2", "CON", "A")]],
+    # ... and with a peer that never acknowledges a response: the response is given up after MAX_TRANSMIT_WAIT, and what waited
+    # behind it is not forgotten
+    "S-BL-server-deaf": ["A-requests-slow", "wait", [("c1", "CON", "A"), ("c2", "CON", "A")]],
 }
+
+
+class DeafServer(RefServer):
+    """Never acknowledges a confirmable response."""
+
+    def on_message(self, src, msg, dg):
+        if msg[0] == rc.CON and msg[1] >= 64:
+            return
+        super().on_message(src, msg, dg)
+
 
 
 class Sub:
@@ -66,7 +82,7 @@ class BacklogScenario(NetScenario):
         w = st.world = World()
         site = None
         st.resp = None
-        if self.name == "S-BL-server":
+        if self.name.startswith("S-BL-server"):
             import asyncio
             from aiocoap import resource
 
@@ -82,7 +98,7 @@ class BacklogScenario(NetScenario):
             site = resource.Site()
             site.add_resource(["slow"], Slow())
         st.cli = w.add_context("cli", *CLI, site=site)
-        w.add_peer(RefServer("A", *A))
+        w.add_peer((DeafServer if self.name.endswith("-deaf") else RefServer)("A", *A))
         w.add_peer(RefServer("B", *B))
         st.subs = []
         st.open = {"A": None, "B": None}      # model: the Sub whose exchange is open, per remote
@@ -91,6 +107,16 @@ class BacklogScenario(NetScenario):
         w.on_emit.append(lambda dg: self.on_wire(st, dg))
         n = 0
         for g in SCENARIOS[self.name]:
+            if g == "wait":
+                def wait(st):
+                    # the request is delivered, 0.6 s pass: empty ACK after 0.1 s, the separate response after 0.5 s
+                    for dg in list(st.world.pool):
+                        self.before_deliver(st, dg)
+                        st.world.deliver(dg)
+                        self.after_deliver(st, dg)
+                    st.world.loop.advance_to(st.world.loop.time() + 0.6)
+                st.script.append(("0.6 s pass", wait))
+                continue
             if g == "A-requests-slow":
                 st.script.append(("A requests /slow", lambda st: st.world.emit(A, CLI, rc.encode((rc.CON, 1, 0x1001, b"\xa5", [(11, b"slow")], b"")))))
                 continue
